@@ -157,9 +157,13 @@ package server
 //@   preserves $KEEP
 //@ func (TLS).unmarshalClientHello
 //@   requires ch != nil && pvOK(staticPv)
+//@   # C07: no fragments without a shared secret that was actually computed, a key that unmarshalled and a
+//@   # key share that parsed - an error of any step is the error of the whole
+//@   ensures everyStepSucceeded: err == nil ==> succeeded("GenerateSharedSecret") && succeeded("parseKeyShare")
 //@   modifies elems(ch.sessionId[0:cap(ch.sessionId)])
 //@ func (WebSocket).unmarshalHidden
 //@   requires pvOK(staticPv)
+//@   ensures everyStepSucceeded: err == nil ==> succeeded("GenerateSharedSecret")
 
 // ---------------------------------------------------------------------------------------------
 // dispatchConnection (C07 gate, C09 silence towards unauthenticated peers).
